@@ -11,7 +11,7 @@ use serde_json::json;
 
 pub struct C17;
 
-const PRELUDE: &str = "ml_ := \"a plain literal\nover three\n  lines\"\nv := 0\nxs := [1, 2, 3]\nob := {\"a\": 1}\nfn id(a) {\nreturn a\n}\nfn nf(a) {\nreturn a\n}\nfn sf_() {\nreturn undef_q\n}\nfn pr_() {\nprint(\"arg\")\nreturn 1\n}\nfn two_(a, b) {\nreturn a\n}\n";
+const PRELUDE: &str = "ml_ := \"a plain literal\nover three\n  lines\"\nv := 0\nxs := [1, 2, 3]\nob := {\"a\": 1}\nfn id(a) {\nreturn a\n}\nfn nf(a) {\nreturn a\n}\nfn sf_() {\nreturn undef_q\n}\nfn pr_() {\nprint(\"arg\")\nreturn 1\n}\nfn two_(a, b) {\nreturn a\n}\nfn prl_() {\nprint(\"subject\")\nreturn [1, 2]\n}\nnd_ := [[1]]\non_ := {\"k\": {\"k\": 1}}\n";
 
 /// expressions whose evaluation fails
 pub const EXPR_ERRORS: &[(&str, &str)] = &[
@@ -37,6 +37,15 @@ pub const EXPR_ERRORS: &[(&str, &str)] = &[
     ("list range out of bounds", "xs[0:5]"),
     ("string range reversed", "\"ab\"[1:0]"),
     ("list range reversed", "xs[2:1]"),
+    ("comparison meeting an ill-typed pair after a container shared by both operands", "[xs, 1] == [xs, \"a\"]"),
+    ("comparison of a list with a holder of itself", "nd_ == [nd_]"),
+    ("comparison of a holder with the list it holds", "[nd_] == nd_"),
+    ("comparison of an object with a holder of itself", "on_ == {\"k\": on_}"),
+    ("comparison of objects that share a value, ill-typed later", "{\"a\": ob, \"b\": 1} == {\"a\": ob, \"b\": \"s\"}"),
+    ("comparison of a container with one holding it at another depth", "[xs, [xs], 1] == [[xs], xs, 1]"),
+    ("failing range bound after a printing subject", "prl_()[undef_b:]"),
+    ("failing range end after a printing subject", "prl_()[0:undef_e]"),
+    ("failing index after a printing subject", "prl_()[undef_i]"),
     ("list range reversed at the end", "xs[3:2]"),
     ("failing list item before a printing one", "[undef_l, pr_()]"),
     ("failing argument before a printing one", "two_(undef_a, pr_())"),
